@@ -518,6 +518,22 @@ def replay_C05(ctx):
     return check_C05(ctx)
 
 
+def check_C16(ctx):
+    def classify(name, fields, run):
+        return ("C16:%s:%s" % (run["family"], fields[1][:48]), "%s (faults %s): %s" % (run["family"], run["faults"], fields[1]))
+    return pub_property(ctx, "C16", "Properties/C16.v",
+                        ["Pub/EffectSpec.v (update_merge / to_tombstone / add_spec / remove_spec / like_spec), Pub/Soc.v (update, delete, add_cb, remove_cb, like, block), Pub/Util.v (add, remove), Pub/Monitors.v eff_step",
+                         "modelled, not verified: streams.ToType on the merged member map (decoding; C01) is the model's to_type; time formatting (C20)"],
+                        {"monitors": ["effects_bad"], "classify": classify,
+                         "rule": "stored objects against random partial updates with overlapping / disjoint / null members; 1..3 objects and targets per Add/Remove (owned, not owned, ordered, unordered, duplicates); Like and Block with 1..3 objects; object / target absent; every single fault; each Database.Update of the real run compared with the effect function applied to what the real Get returned"},
+                        family_filter=lambda f: f.startswith(("outbox:", "send:", "effects:")),
+                        run_specs=[("effects", ["-families", "effects", "-n", "10" if ctx.tier == "quick" else "150", "-faults", "single", "-maxruns", "20000"]), ("std", PUB_STD[ctx.tier])])
+
+
+def replay_C16(ctx):
+    return check_C16(ctx)
+
+
 def check_C03(ctx):
     def classify(name, fields, run):
         return ("C03:%s:%s" % (run["family"].split(":")[0], "payload" if "payload" in fields[1] else "body"), "%s (faults %s): %s" % (run["family"], run["faults"], fields[1]))
